@@ -161,7 +161,7 @@ fn project_help(text: &str) -> String {
     let ui = lines.iter().position(|l| l.starts_with("Usage:"));
     let about = lines[..ui.unwrap_or(0)].iter().find(|l| !l.trim().is_empty());
     match about {
-        Some(a) => out.push_str(&format!("(about {})", hex(a.trim_end().as_bytes()))),
+        Some(a) => out.push_str(&format!("(about {})", hex(a.split_whitespace().next().unwrap_or("").as_bytes()))),
         None => out.push_str("(about none)"),
     }
     let Some(ui) = ui else {
